@@ -8,7 +8,7 @@ import (
 	"verifh/lib"
 )
 
-const header = "From GL Require Import Common.Bytes Str.StrModel Str.StrCases."
+const header = "From GL Require Import Common.Bytes Str.StrModel Str.FormatModel Str.MathWModel Str.StrCases."
 
 func main() {
 	a := lib.ParseArgs()
@@ -28,7 +28,11 @@ func main() {
 		replay(w, a.Replay)
 	} else {
 		corpus(w)
+		fmtCorpus(w)
+		mathCorpus(w)
 		genStrings(w, r, a.Tier)
+		genFormat(w, r.Fork(), a.Tier)
+		genMath(w, r.Fork(), a.Tier)
 	}
 	if err := w.Close(); err != nil {
 		panic(err)
